@@ -5,6 +5,7 @@
 use vstd::prelude::*;
 use vstd::std_specs::cmp::*;
 use crate::code::node_id::NodeId;
+use crate::sp::*;
 #[verifier::external_body]
 pub broadcast proof fn axiom_nodeid_derived_eq(a: &NodeId, b: &NodeId)
     ensures #[trigger] PartialEqSpec::eq_spec(a, b) == (a.raw@ == b.raw@),
